@@ -170,6 +170,26 @@ fn stable_key(key: &[u8; 64], tpe: FileType, data: &[u8]) -> [u8; 32] {
     if acc.is_empty() { sha256(data) } else { sha256(&acc) }
 }
 
+/// every snapshot restores to disk (the restore command reads packs in coalesced ranges, unlike
+/// ls / dump) and the restored tree is the model
+fn restores_to_disk(storage: &Arc<Storage>, cfg: &RepoCfg, live: &[(rustic_core::repofile::SnapshotFile, Arc<Flat>)]) -> Result<(), String> {
+    let full = open_full(storage, cfg)?;
+    for (s, model) in live {
+        if storage.get(FileType::Snapshot, &rustic_core::Id::new(crate::membe::id_bytes(&s.id))).is_none() {
+            continue;
+        }
+        let scratch = crate::fsutil::Scratch::new("c05r");
+        let dest = scratch.path().join("d");
+        crate::restore::restore_snapshot(&full, s, &dest, &rustic_core::RestoreOptions::default().no_ownership(true))
+            .map_err(|e| format!("snapshot {}: {e}", s.id))?;
+        let fs = crate::fsutil::walk(&dest).map_err(|e| e.to_string())?;
+        if let Some(d) = crate::restore::compare_fs(model, &fs, &crate::restore::FsCmp { ownership: false, hardlinks: true, exact_set: true }) {
+            return Err(format!("snapshot {} restored to disk differs from what was backed up: {d}", s.id));
+        }
+    }
+    Ok(())
+}
+
 fn copy_dir(from: &std::path::Path, to: &std::path::Path) -> std::io::Result<()> {
     std::fs::create_dir_all(to)?;
     for e in std::fs::read_dir(from)? {
@@ -268,6 +288,9 @@ pub fn run(c: &Case, ctx: &Ctx) -> Outcome {
         CheckVerdict::Errors(e) => fail!("undamaged repository: {e}"),
         CheckVerdict::Inconclusive(_) => return out.skip("check_inconclusive_on_undamaged"),
         CheckVerdict::Clean => {}
+    }
+    if let Err(e) = restores_to_disk(&w.storage, &c.cfg, &live) {
+        fail!("undamaged repository, check --read-data reports no error, but: {e}");
     }
 
     // the check handle's local cache
@@ -414,6 +437,20 @@ pub fn run(c: &Case, ctx: &Ctx) -> Outcome {
                 return out;
             }
             (Err(_), CheckVerdict::Errors(_)) => detected += 1,
+            (Ok(()), CheckVerdict::Clean) => {
+                // check is clean and ls / dump agree: then the restore command must succeed as well
+                // (judged for every fifth such state: a restore to disk per snapshot is not cheap)
+                if harmless % 5 == 0 {
+                    if let Err(why) = restores_to_disk(&st, &c.cfg, &live) {
+                        out.failure = Some(format!(
+                            "after fault `{}` on {tpe} file {id:?} ({f:?}) check --read-data reports no error, but not every snapshot restores: {why}",
+                            fault_name(&f)
+                        ));
+                        return out;
+                    }
+                }
+                harmless += 1;
+            }
             (Ok(()), _) => harmless += 1,
         }
         judged += 1;
